@@ -41,8 +41,36 @@ def shapes():
         out.append((hist(rules2, [build(0, [atom("top"), var(0, "$P"), var(0, "$Q")]), "(solve-all 0)", "(ask 0)"]), "shape-solve-all"))
     return out
 
+def long_shapes(tier, rng):
+    """beyond the small shapes: the cut as the 30th-45th goal of a body (a flat conjunction is a chain of And nodes, so the
+    cut lies that many nodes below its call), under 35 nested conjunctions / disjunctions, and a search in which a cut commits
+    and its clause then fails more than a thousand times"""
+    n, e, zero = C("n", X), C("e", X), C("zero")
+    out = []
+    ks = [28, 30, 31, 32, 33, 40, 45] if tier == "quick" else list(range(20, 70))
+    helpers = [rule(cplx("c1", X), AND(C("n", X), CUT)), rule(cplx("c1", i(7)))]
+    for k in ks:
+        fill = [zero] * k
+        def nest(inner, depth):
+            g = inner
+            for d in range(depth): g = AND(zero, g) if d % 3 else OR(AND(zero, g), FAIL)
+            return g
+        for b in (AND(n, *fill, CUT, FAIL), AND(n, *fill, CUT), AND(n, *fill, CUT, e), OR(AND(n, *fill, CUT, FAIL), e), AND(n, *fill[:k // 2], CUT, *fill[k // 2:], FAIL),
+                  AND(n, nest(AND(CUT, FAIL), k)), AND(n, nest(CUT, k), e)):
+            rules = list(LIB[:5]) + list(LIB[-2:]) + [fact("zero")] + helpers + [rule(cplx("a", X), b), fact("a", i(9))]
+            out.append((single_query_case(rules, [atom("a"), var(0, "$Q")], 5), "long-body"))
+    # many commits: c/2 cuts and then fails, once per candidate pair
+    for m in ([12, 36] if tier == "quick" else [12, 36, 50]):
+        rules = [fact("num", i(k)) for k in range(1, m + 1)]
+        rules += [rule(cplx("c", X, Y), AND(bip("greater_than", Y, i(0)), CUT, bip("equal", X, i(m + 1)))), rule(cplx("c", ANON, ANON)),
+                  rule(cplx("a", X), AND(C("num", X), C("num", Y), C("c", X, Y))), fact("a", i(9)),
+                  rule(cplx("b", X), AND(C("num", X), C("num", Y), C("c", X, Y), FAIL)), rule(cplx("b", X), C("num", X))]
+        out.append((single_query_case(rules, [atom("a"), var(0, "$Q")], 3), "many-commits"))
+        out.append((single_query_case(rules, [atom("b"), var(0, "$Q")], 3), "many-commits"))
+    return out
+
 def cases(tier, rng):
-    out = shapes()
+    out = shapes() + long_shapes(tier, rng)
     alpha = progs.alphabet(allow_not=False, allow_print=False)
     out += histgen.small_cases(alpha, 6, rng, 1.0 if tier == "thorough" else 0.6, "small-exhaustive", must=CUT)
     for body in progs.small_bodies(alpha, 2):
@@ -54,7 +82,8 @@ def cases(tier, rng):
     out += histgen.random_cases(rng, n, OPTS, must=CUT)
     return out
 
-RULE = ("(a) 30 hand-picked bodies with `!` (followed by failing / succeeding / multi-answer goals, at the start / end of "
+RULE = ("(0) long shapes: the cut as the 30th-45th goal of a body, or under 28-45 nested conjunctions and disjunctions, and searches in which a cut commits and "
+        "its clause then fails 144 / 1296 times; (a) 30 hand-picked bodies with `!` (followed by failing / succeeding / multi-answer goals, at the start / end of "
         "either branch of a disjunction, in nested conjunctions, in a callee, in a later alternative that is only reached on backtracking) alone, inside a caller with sibling goals, and "
         "through solve_all; (b) all bodies of 1-3 goals over an 8-goal alphabet that contain `!` (quick: 60%), and every "
         "2-goal body with `!` placed in / after / under a disjunction, also as a later alternative below a multi-answer goal; (c) random programs in which some clause contains `!`. "
